@@ -18,7 +18,7 @@ const uuPkg = "lib/uu"
 func init() {
 	register("C15", &propDef{
 		Run: checkC15,
-		Explanation: "Static decision of the clauses of C15 whose truth is in the shape of the code. (1) Purity: in AppendEncode/AppendDecode and their loop-body closures every element store, copy destination and append base is classified by an alias analysis over {src, dst, fresh} with a 'capacity clipped' flag (slices.Chunk and bytes.Split yield clipped sub-slices, plain re-slicing does not): stores go only to fresh memory, append never extends an unclipped alias of src, dst is only appended to, and src/dst-rooted slices are passed only to read-only library functions. (2) Totality by shape: every loop is a range over a slice/array or an allow-listed finite iterator, there is no recursion, channel, lock or unchecked type assertion, no division by a non-constant, and the only panics are the compiler's own range-over-func guards. (3) Bit layout, for all inputs at once: an abstract interpreter with per-bit provenance shows that the encoder's four 6-bit symbols are exactly input bits 0-5, 6-11, 12-17, 18-23 (most significant first) of each 3-byte group, and that the decoder rebuilds bytes 0,1,2 from those same bit positions — i.e. the regrouping is uuencode's and decode∘encode is the identity on the regrouping. (4) Symbol tables, exhaustively over their finite domains: the encoder maps sextet 0 to '`' and s to s+32 (Perl's pack 'u' alphabet), the decoder accepts exactly 32..95 after mapping '`' to space, and decode(symbol(s)) = s for all 64 sextets. (5) Framing constants: 45 bytes per line, length character 32+len, 3→4 grouping, zero padding, newline terminator. Not decided: slice-index safety of the decoder on arbitrary text (needs congruence reasoning about line lengths), the Max*Len bounds, and byte-for-byte identity with perl beyond the clauses above.",
+		Explanation: "Static decision of the clauses of C15 whose truth is in the shape of the code. (1) Purity: in AppendEncode/AppendDecode and their loop-body closures every element store, copy destination and append base is classified by an alias analysis over {src, dst, fresh} with a 'capacity clipped' flag (slices.Chunk and bytes.Split yield clipped sub-slices, plain re-slicing does not): stores go only to fresh memory, append never extends an unclipped alias of src, dst is only appended to, and src/dst-rooted slices are passed only to read-only library functions. (2) Totality: every loop is a range over a slice/array or an allow-listed finite iterator, there is no recursion, channel, lock or unchecked type assertion, no division by a non-constant, the only panics are the compiler's own range-over-func guards, and — index safety — every index and slice expression of the codec is proved in bounds for all inputs by a small prover over linear terms (facts from dominating branch edges including the (len-1)&3 congruence test, lengths of re-slices/append/Clone/iterator chunks, an inductive invariant of the remaining-count cell, case splits over phis): so the decoder cannot panic on any text. (3) Bit layout, for all inputs at once: an abstract interpreter with per-bit provenance shows that the encoder's four 6-bit symbols are exactly input bits 0-5, 6-11, 12-17, 18-23 (most significant first) of each 3-byte group, and that the decoder rebuilds bytes 0,1,2 from those same bit positions — i.e. the regrouping is uuencode's and decode∘encode is the identity on the regrouping. (4) Symbol tables, exhaustively over their finite domains: the encoder maps sextet 0 to '`' and s to s+32 (Perl's pack 'u' alphabet), the decoder accepts exactly 32..95 after mapping '`' to space, and decode(symbol(s)) = s for all 64 sextets. (5) Framing constants: 45 bytes per line, length character 32+len, 3→4 grouping, zero padding, newline terminator. Not decided: the Max*Len bounds (numerical) and byte-for-byte identity with perl beyond the clauses above.",
 		Assumptions: []string{"slices.Chunk yields sub-slices with capacity clipped to their length; bytes.Split likewise", "Perl's pack('u') alphabet: sextet 0 → '`', otherwise +32; 45 bytes per line"},
 	})
 }
@@ -386,6 +386,36 @@ func checkC15(p *Prog, r *Report) {
 		}
 	}
 
+	/* Index safety. */
+	{
+		rIdx := r.Rule("index-safety", "every index and slice operation of the codec is within bounds on all inputs (no run-time panic)")
+		ip := &idxProver{p: p, funcs: fns, cellLo: map[*ssa.Alloc]int64{}, chunkEq: map[*ssa.Function]int64{}}
+		ip.establishChunkLengths(ordered)
+		ip.establishCellInvariants(ordered)
+		n := 0
+		for _, f := range ordered {
+			per := 0
+			for _, s := range ip.checkFunction(f) {
+				n++
+				per++
+				c := fmt.Sprintf("%s:%s#%d", fnName(f), strings.SplitN(s.What, "[", 2)[0], per)
+				if s.OK {
+					rIdx.OK(c, posOf(s.Instr), "%s in bounds", s.What)
+				} else {
+					rIdx.Bad(c, posOf(s.Instr), "%s: %s — on some input this index or slice expression panics", s.What, s.Why)
+				}
+			}
+		}
+		if n < 20 {
+			rIdx.Unproven("lib/uu:index-sites", token.NoPos, "only %d index/slice sites found", n)
+		}
+		var inv []string
+		for cell := range ip.cellLo {
+			inv = append(inv, cell.Comment+" ≥ 0")
+		}
+		sort.Strings(inv)
+		r.Note("index-safety: %d sites; cell invariants: %s; exact chunk lengths: %d closures", n, strings.Join(inv, ", "), len(ip.chunkEq))
+	}
 	checkC15Frame(p, r, rFrame, fns)
 	checkC15Bits(p, r, rBits, fns)
 	checkC15Tables(p, r, rTab, fns)
